@@ -1,6 +1,7 @@
 package soyhtml
 
 import (
+	"fmt"
 	"math"
 	"math/rand"
 	"strings"
@@ -162,6 +163,11 @@ func funcRange(v []data.Value) data.Value {
 		limit = int(v[1].(data.Int))
 	case 1:
 		limit = int(v[0].(data.Int))
+	}
+
+	if increment <= 0 {
+		// (a non-positive step would never reach the limit)
+		panic(fmt.Errorf("range: step must be positive, got %d", increment))
 	}
 
 	var indices data.List
